@@ -335,6 +335,9 @@ def judge_case(ctx, case, R, M):
     if "gen" in R:
         ctx.judge(dict(base, queries=[]), R["gen"], {"ok": "source emitted"}, None, what="generation raised")
         return
+    # ---- the Lean hypothesis `refsResolve` is the input class the harness computes independently
+    if M is not None and M["hyp"] != (fid is None):
+        ctx.add_drift(dict(base, queries=[]), {"class": fid}, {"refsResolve": M["hyp"]}, "hypothesis of C11_roundtrip_partial vs finding class")
     # ---- program shape tie
     if M is not None:
         Mp = M["program"]
